@@ -1,4 +1,5 @@
 import Txtpp.Lemmas.SinkFacts
+import Txtpp.Lemmas.CliFacts
 import Txtpp.Lemmas.NeededRel
 import Txtpp.Lemmas.Hermetic
 /-!
@@ -86,5 +87,13 @@ theorem needed_pass_eq_build_pass_where_checked (cfg : Cfg) (hb : cfg.mode = .bu
     (runPass cfg a src first).1 = (runPass cfg.toNeeded a src first).1 ∧
     ((runPass cfg a src first).1 = .ok → ∀ q, (runPass cfg a src first).2.file? q = (runPass cfg.toNeeded a src first).2.file? q) :=
   needed_eq_build_where_checked cfg hb a src first hs
+
+/-- entry layer: without a sub-command, `-N` selects the only-if-needed mode and nothing else changes:
+inputs, `-r`, `-j`, `-n` and `-s` are applied exactly as for a normal build -/
+theorem cli_needed_flag (p : CliParsed) (h : p.sub = none) :
+    p.config.mode = (if p.needed then .inMemory else .build) ∧
+    ({ p with needed := true } : CliParsed).config = { ({ p with needed := false } : CliParsed).config with mode := .inMemory } := by
+  refine ⟨(build_mode p h).1, ?_⟩
+  simp [CliParsed.config, h, CliFlags.applyTo, CliBuildFlags.applyTo]
 
 end C09
